@@ -257,10 +257,11 @@ func getOCSPForCert(ocspConfig OCSPConfig, bundle []byte) ([]byte, *ocsp.Respons
 
 // checkOCSPResponse returns an error if resp is not a response for the
 // certificate leaf (its serial number differs), if it is not yet valid
-// (ThisUpdate is in the future), or if it has already expired (NextUpdate
-// has passed). A response without NextUpdate does not expire: according to
-// RFC 6960 section 4.2.2.1 newer revocation information is then available
-// all the time.
+// (ThisUpdate is in the future), if it has already expired (NextUpdate
+// has passed), or if it is signed by a delegated responder whose certificate
+// is not valid now or lacks the OCSP signing purpose. A response without
+// NextUpdate does not expire: according to RFC 6960 section 4.2.2.1 newer
+// revocation information is then available all the time.
 func checkOCSPResponse(resp *ocsp.Response, leaf *x509.Certificate) error {
 	if leaf != nil && (resp.SerialNumber == nil || leaf.SerialNumber == nil ||
 		resp.SerialNumber.Cmp(leaf.SerialNumber) != 0) {
@@ -272,6 +273,25 @@ func checkOCSPResponse(resp *ocsp.Response, leaf *x509.Certificate) error {
 	}
 	if !resp.NextUpdate.IsZero() && !now.Before(resp.NextUpdate) {
 		return fmt.Errorf("response has expired (next update: %s)", resp.NextUpdate)
+	}
+	// A response that is not signed by the issuer itself carries the certificate
+	// of the responder that signed it. Parsing the response verifies that the
+	// issuer signed that certificate, but not that it was issued for signing
+	// OCSP responses or that it is valid (RFC 6960 section 4.2.2.2); without
+	// this, any certificate from the same issuer could sign responses.
+	if rc := resp.Certificate; rc != nil && leaf != nil && leaf.CheckSignatureFrom(rc) != nil {
+		if now.Before(rc.NotBefore) || now.After(rc.NotAfter) {
+			return fmt.Errorf("responder certificate is not valid at this time (%s - %s)", rc.NotBefore, rc.NotAfter)
+		}
+		var ocspSigning bool
+		for _, eku := range rc.ExtKeyUsage {
+			if eku == x509.ExtKeyUsageOCSPSigning {
+				ocspSigning = true
+			}
+		}
+		if !ocspSigning {
+			return errors.New("responder certificate is not authorized to sign OCSP responses")
+		}
 	}
 	return nil
 }
